@@ -185,6 +185,9 @@ func firstDiff(a, b []byte) int {
 
 // compressWhole compresses with one Write and reports writer-side violations.
 func (c *ctx) compress(what string, in []byte, crc bool, parts []int, partName string) ([]byte, bool) {
+	if c.o.Poisoned {
+		return nil, false // a spinning call is still burning CPU in this process: the case is over
+	}
 	res := lzwork.Compress(in, crc, parts)
 	if res.OK() {
 		c.calls++
@@ -198,6 +201,13 @@ func (c *ctx) compress(what string, in []byte, crc bool, parts []int, partName s
 		if c.calls%8 == 0 && len(c.memo) > 0 {
 			m := c.memo[(c.calls/8)%len(c.memo)]
 			again := lzwork.Compress(m.in, m.crc, m.parts)
+			if again.Spun || again.Abandoned {
+				c.o.Poisoned = true
+				if again.Spun {
+					c.violate("no-termination:cpu-spin", map[string]any{"input_hex": lzwork.Hex(m.in, 200), "mode": modeName(m.crc)}, "compressing a %d-byte input again burnt %v of CPU time without returning", len(m.in), lzwork.SpinCPU)
+				}
+				return nil, false
+			}
 			c.o.Count("earlier_compressions_repeated", 1)
 			if again.OK() && !bytes.Equal(again.Out, m.out) {
 				c.violate("history-dependent-output:"+modeName(m.crc), map[string]any{"input_hex": lzwork.Hex(m.in, 200), "first_hex": lzwork.Hex(m.out, 200), "again_hex": lzwork.Hex(again.Out, 200)},
@@ -211,6 +221,12 @@ func (c *ctx) compress(what string, in []byte, crc bool, parts []int, partName s
 		det["write_sizes"] = append([]int(nil), parts...)
 	}
 	switch {
+	case res.Spun:
+		c.o.Poisoned = true
+		c.violate("no-termination:cpu-spin", det, "%s: compression (Writes and Close) burnt %v of CPU time without returning: a call spins", what, lzwork.SpinCPU)
+	case res.Abandoned:
+		c.o.Poisoned = true
+		c.o.Inconclusive = append(c.o.Inconclusive, what+": compression neither returned nor used CPU within "+lzwork.SpinWall.String())
 	case res.Panic != nil:
 		v := *res.Panic
 		v.Detail = map[string]any{"stack": v.Detail, "case": det}
@@ -227,7 +243,20 @@ func (c *ctx) compress(what string, in []byte, crc bool, parts []int, partName s
 
 // roundTrip decompresses stream and demands the input back, io.EOF and Close() == nil.
 func (c *ctx) roundTrip(what string, in, stream []byte, crc bool, src lzwork.Source, rp lzwork.ReadPlan) {
+	if c.o.Poisoned {
+		return
+	}
 	res := lzwork.Decompress(stream, crc, src, rp, lzwork.Limits{StopAfter: -1, Keep: len(in) + 256, MaxBytes: int64(len(in)) + 4096})
+	if res.Spun || res.Abandoned {
+		c.o.Poisoned = true
+		if res.Spun {
+			c.violate("no-termination:cpu-spin", map[string]any{"input": what, "input_hex": lzwork.Hex(in, 200), "stream_hex": lzwork.Hex(stream, 200), "mode": modeName(crc)},
+				"%s: decompressing the library's own stream burnt %v of CPU time without returning: a call spins", what, lzwork.SpinCPU)
+		} else {
+			c.o.Inconclusive = append(c.o.Inconclusive, what+": decompression neither returned nor used CPU within "+lzwork.SpinWall.String())
+		}
+		return
+	}
 	c.o.Count("read_calls", res.Reads)
 	c.o.Count("readplan_"+rp.String(), 1)
 	c.o.Count("source_"+src.String(), 1)
